@@ -31,14 +31,15 @@ META = {
     "design_ref": "5.3 C19",
 }
 
-INV = ["TypeOK", "PrepareWellFormed", "OnePreparePerUnprepared", "SendOrder", "ResentOnSuccess", "PrepareErrorSurfaces",
+INV = ["TypeOK", "PrepareWellFormed", "PrepareOnAnsweringNode", "OnePreparePerUnprepared", "SendOrder", "ResentOnSuccess", "PrepareErrorSurfaces",
        "LossMovesOn", "MismatchStops", "KeyspaceRule", "IdsInSpace"]
 PROPS = ["NothingAfterStop"]
 WITNESSES = ["Witness_Mismatch", "Witness_KsMismatch", "Witness_NextHostAfterLoss", "Witness_SecondRound", "Witness_NoHost",
              "Witness_LateAnswerAfterTimeout", "Witness_V5Keyspace", "Witness_PoolDownBeforePrepare",
-             "Witness_ResendOnStreamZero", "Witness_TimeoutTakesPrepareHandler"]
-NAMED_ACTIONS = ("Start", "RunReprepare", "RunAfter", "ConnLost", "PoolDown", "Timeout")
-ACT_NAMES = {"Start", "AnsUnprepared", "AnsRows", "RunReprepare", "AnsPrepare", "ConnLost", "PoolDown", "RunAfter", "Timeout"}
+             "Witness_ResendOnStreamZero", "Witness_TimeoutTakesPrepareHandler", "Witness_ReprepareBehindSpeculation",
+             "Witness_SpeculativeAnswered"]
+NAMED_ACTIONS = ("Start", "SpecExec", "RunReprepare", "RunAfter", "ConnLost", "PoolDown", "Timeout")
+ACT_NAMES = {"Start", "SpecExec", "AnsUnprepared", "AnsRows", "RunReprepare", "AnsPrepare", "ConnLost", "PoolDown", "RunAfter", "Timeout"}
 RULE = ("spec->code: one case = one walk through the exhaustive state graph (configuration + schedule), the walks together cover "
         "every edge; code->spec: one case = one random schedule on the real objects. Non-trivial = a PREPARE was sent and something "
         "other than 'same id, then rows' happened to it or after it (other id, error, connection loss, pool shutdown, timeout, "
@@ -133,7 +134,7 @@ def run(ctx):
     ctx.note("replay_divergences_by_signature", by_sig)
 
     # binding self-test (spec -> code): a wrong expectation must be noticed
-    start = next(i for i in init if dict(nodes[i]["cfg"]) == {"pv": 5, "sks": "ks", "cks": "ks", "ids": 1})
+    start = next(i for i in init if dict(nodes[i]["cfg"]) == {"pv": 5, "sks": "ks", "cks": "ks", "ids": 1, "spec": 0})
     sw = _pg.follow(nodes, edges, start, [{"name": "Start"}, {"name": "AnsUnprepared", "h": "h1"}, {"name": "RunReprepare"},
                                           {"name": "AnsPrepare", "resp": "same"}, {"name": "RunAfter"}, {"name": "AnsRows"}])
     forged = [dict(nodes[n]) for n in sw[:4]]
